@@ -47,6 +47,8 @@ def exc_signature(e: BaseException) -> dict:
             inner = fr
     last = tb[-1] if tb else None
     return {
+        # the exception was raised while a docutils/Sphinx *writer* translated a finished doctree
+        "in_writer": any("/writers/" in fr.filename.replace(os.sep, "/") for fr in tb),
         "type": type(e).__name__,
         "message": str(e)[:300],
         "myst_frame": f"{os.path.basename(inner.filename)}:{inner.name}" if inner else None,
